@@ -62,8 +62,13 @@ def gen_spec(light=False):
                 ntrain += 1
             steps.append({"name": name, "wires": ws, "params": ps})
         elif r < 0.6:
-            name = rng.choice(ONEQ)
-            steps.append({"name": name, "wires": [rng.randrange(nw)], "params": [["fix", fixed_angle()]]})
+            if rng.random() < 0.3:      # non-trainable multi-parameter gate (parameter-index bookkeeping of adjoint / shift rules)
+                name = rng.choice(["Rot", "U3", "U2"])
+                k = {"Rot": 3, "U3": 3, "U2": 2}[name]
+                steps.append({"name": name, "wires": [rng.randrange(nw)], "params": [["fix", fixed_angle()] for _ in range(k)]})
+            else:
+                name = rng.choice(ONEQ)
+                steps.append({"name": name, "wires": [rng.randrange(nw)], "params": [["fix", fixed_angle()]]})
         elif r < 0.8 or nw == 1:
             steps.append({"name": rng.choice(FIXED1), "wires": [rng.randrange(nw)], "params": []})
         else:
